@@ -62,4 +62,23 @@ Proof.
   - intros [[H _] | [[_ [H _]] | H]]; cbn in H; try discriminate; exact H.
 Qed.
 
+(** The decorator's loop carries nothing from one message of a transaction to the next (extracted
+    from the Go AST on every run); the model of the loop is instantiated with what the code does. *)
+Lemma decorator_loop_stateless_lemma : Gen.C03.ante_lookup_carried = false.
+Proof. reflexivity. Qed.
 
+Lemma table_ante_tx_sound : forall g tx, ante_tx Gen.C03.ante_lookup_carried g tx = true ->
+  forall spec m, In (spec, m) tx -> ms_has_meta spec = true ->
+  exists sg, In sg (m_meta_signers m) /\ (sg = m_creator m \/ granted g (m_creator m) sg = true).
+Proof. rewrite decorator_loop_stateless_lemma. exact ante_tx_sound_lemma. Qed.
+
+Lemma table_tx_no_cross_principal : forall auth g tx s s',
+  (forall spec m, In (spec, m) tx -> In spec Gen.C03.specs /\ spec_named known_open spec = false) ->
+  deliver_tx Gen.C03.ante_lookup_carried auth g tx s = Done s' ->
+  forall p, get (owned s') p <> get (owned s) p ->
+  exists spec m, In (spec, m) tx /\ authorised auth g spec m p.
+Proof.
+  rewrite decorator_loop_stateless_lemma. intros auth g tx s s' H Hd p Hch.
+  eapply tx_no_cross_principal_lemma; eauto.
+  intros spec m Hin. destruct (H spec m Hin). apply table_spec_ok; assumption.
+Qed.
